@@ -9,7 +9,7 @@ for d in sorted(glob.glob('/verif/seeded/*/')):
     for f in sorted(glob.glob(d+'eval*.txt')):
         t=open(f).read()
         conf = ('suite: pass with patch' in t, 'demo: fails with patch' in t, 'demo: passes without patch' in t)
-        for m in re.finditer(r'^check (\S+) (--runs \d+): exit (\d+)\s*(.*)$', t, re.M):
+        for m in re.finditer(r'^check (\S+) (--runs \d+(?: --workers \d+)?): exit (\d+)\s*(.*)$', t, re.M):
             evs.append({'file':os.path.basename(f),'check':m.group(1),'args':m.group(2),'exit':int(m.group(3)),'first_violation':m.group(4)[:300], 'suite_pass_with_patch':conf[0],'demo_fails_with_patch':conf[1],'demo_passes_without_patch':conf[2]})
     meta['evaluation']=evs
     caught=sorted({e['check'] for e in evs if e['exit']==1})
